@@ -2,6 +2,7 @@ package main
 
 import (
 	"fmt"
+	"os"
 	"go/types"
 	"sort"
 	"strings"
@@ -399,4 +400,106 @@ func rulePortRecordFirst(c *Ctx, rule string) {
 		}
 	}
 	c.ob(rule, fns[1], "setup, full sync and clean derive the KUBE-HOSTPORTS rule from the same port fields", nil, same, fmt.Sprintf("fields of k8s.Port rewritten before the rule spec is derived: %v — the remover re-derives the exact rule text, so a normalisation must be applied by all three or none", sets))
+}
+
+// teardown releases the sockets unconditionally; the restart sync covers every pod that has an ip and is not host-network
+func rulePortTeardownAndResync(c *Ctx, rule string) {
+	if fn := c.MustFn(rule, galaxyPkg, "(*Galaxy).cleanupPortMapping"); fn != nil {
+		cl := calls(fn, "(*PortMappingHandler).CloseHostports")
+		ok := len(cl) >= 1
+		if ok {
+			r := reachFromEntry(fn, newCut().callInstrs(cl))
+			for _, ret := range returns(fn) {
+				if r.has(ret) {
+					ok = false
+				}
+			}
+		}
+		c.ob(rule, fn, "the pod's sockets are closed on every path of the teardown", nil, ok, "every return of cleanupPortMapping is preceded by CloseHostports: a failing rule clean-up does not keep the host ports bound")
+	}
+	if fn := c.MustFn(rule, galaxyPkg, "(*Galaxy).setupIPtables"); fn != nil {
+		op := calls(fn, "(*PortMappingHandler).OpenHostports")
+		if len(op) != 1 {
+			c.undecided(rule, fn, "OpenHostports", nil, "expected one call")
+			return
+		}
+		// branch conditions that can skip OpenHostports for a pod: blocks from which both the call and the loop back edge
+		// (without the call) are reachable
+		okField := map[string]bool{"PodIP": true, "HostNetwork": true, "Annotations": true, "Items": true, "Status": true, "Spec": true, "ObjectMeta": true}
+		allowed := func(v ssa.Value) bool {
+			okAll := true
+			seen := map[ssa.Value]bool{}
+			var walk func(x ssa.Value, d int)
+			walk = func(x ssa.Value, d int) {
+				if x == nil || seen[x] || d > 12 {
+					return
+				}
+				seen[x] = true
+				switch y := x.(type) {
+				case *ssa.IndexAddr:
+					if pathEndsWith(y.X, "Items") {
+						return // the pod of this iteration
+					}
+				case *ssa.FieldAddr:
+					if !okField[fieldName(y.X.Type(), y.Field)] {
+						okAll = false
+					}
+				case *ssa.Field:
+					if !okField[fieldName(y.X.Type(), y.Field)] {
+						okAll = false
+					}
+				case *ssa.Call:
+					// results of calls (json.Unmarshal error, len) depend on their arguments
+				}
+				for _, o := range operandsOf(x) {
+					walk(o, d+1)
+				}
+			}
+			walk(v, 0)
+			return okAll
+		}
+		bad := ""
+		n := 0
+		var h *ssa.BasicBlock
+		for _, b := range fn.Blocks {
+			for _, p := range b.Preds {
+				if b.Dominates(p) && b.Dominates(op[0].Block()) && (h == nil || h.Dominates(b)) {
+					h = b
+				}
+			}
+		}
+		if h == nil {
+			c.undecided(rule, fn, "pod loop", nil, "no loop around OpenHostports")
+			return
+		}
+		loop := naturalLoop(h)
+		for b := range loop {
+			ifi, ok := b.Instrs[len(b.Instrs)-1].(*ssa.If)
+			if !ok || b == h || !b.Dominates(op[0].Block()) && !reachFromEdge(edge{b, 0}, nil).has(op[0]) && !reachFromEdge(edge{b, 1}, nil).has(op[0]) {
+				continue
+			}
+			// does one edge skip the call within this iteration?
+			skips := false
+			for i := 0; i < 2; i++ {
+				r := reachFromEdge(edge{b, i}, newCut().callInstrs(op).instr(h.Instrs[0]))
+				_ = r
+				// reaches the header (next pod) without the call
+				r2 := reachFromEdge(edge{b, i}, newCut().callInstrs(op))
+				if r2.has(h.Instrs[0]) && !op[0].Block().Dominates(b) {
+					skips = true
+				}
+			}
+			if !skips || op[0].Block().Dominates(b) {
+				continue
+			}
+			n++
+			if os.Getenv("GALAXY_DEBUG") != "" {
+				fmt.Printf("SKIPCOND %s cond=%s allowed=%v\n", c.instrPos(ifi), ifi.Cond, allowed(ifi.Cond))
+			}
+			if !allowed(ifi.Cond) {
+				bad = c.instrPos(ifi)
+			}
+		}
+		c.ob(rule, fn, "the restart sync skips a pod only for lack of an ip, host networking or an undecodable annotation", op[0], bad == "" && n >= 2, fmt.Sprintf("%d branch conditions can skip OpenHostports for a pod; each depends only on Status.PodIP, Spec.HostNetwork, the annotations or a decode error %s", n, bad))
+	}
 }
